@@ -149,6 +149,15 @@ def prove_congruence(enc, R, V, q, extra=(), timeout=60, max_lemmas=40, solvers=
         if not progress:
             break
     cur = _residual(D, zero_forms, q)
+    # (d) last resort: let the solver decide the residual congruence directly
+    if cur.m and len(cur.m) <= 64:
+        v, _, dt, s = _solve(enc, "(not (= (mod %s %d) 0))" % (cur.smt(), q), extra, timeout,
+                             solvers, logic=None)
+        nq += 1
+        if v == "unsat":
+            comb_ok = True
+            return Result("proved", s + " (direct residual mod q)", time.time() - t0, nq,
+                          {"lemmas": lemma_txt + ["residual == 0 (mod q) decided directly"]})
     return Result("unknown", "z3", time.time() - t0, nq,
                   {"reason": "no congruence witness", "residual": cur, "lemmas": lemma_txt,
                    "extra": extra})
